@@ -377,7 +377,7 @@ def setup_first(E):
     E.prove('connect:transport_connected_once', len(log.of(transport, 'connect')) == 1)
 
 
-@harness('c16.head_insertion_is_reserved_for_SETUP', ['C16', 'C08', 'C05'], functions=[BASE + '.connect', BASE + '.send_priority_frame'],
+@harness('c16.head_insertion_is_reserved_for_SETUP', ['C16', 'C08', 'C05', 'C01', 'C15'], functions=[BASE + '.connect', BASE + '.send_priority_frame'],
          assumptions=['syntactic call-site obligation: every call of send_priority_frame in the library sources is inspected; the frame '
                       'passed at the permitted site is proved to be the SETUP frame by c16.setup_precedes_everything'])
 def head_insertion_sites(E):
